@@ -19,15 +19,21 @@ import appboot
 import segchecks
 import segwalk
 
-STREAMS = ("bbb", "tears", "syn1", "syn2")
+# streams of the shared app the generators use (segchecks.ensure_streams): the two fixtures plus synthetic
+# streams that each contribute one shape of stored media – syn1 irregular durations; syn2 90 kHz, audio without
+# tfdt boxes and longer than the reference; syn3 fragments numbered from 7; syn4 audio is the (fractional)
+# timing reference; syn5 fragments numbered from 0, power-of-two loop; syn7 NTSC 30000/1001; syn8 two
+# segments (the minimum); syn9 stored stream defaults, one very long and one short interior segment.
+# (syn6 – first decode time != 0 – is outside the proved hypotheses: ledger D25.)
+STREAMS = ("bbb", "tears", "syn1", "syn2", "syn3", "syn4", "syn5", "syn7", "syn8", "syn9")
 # track ids each stream offers (content type by track id); video (1) is always needed:
 # create_period() asserts a video adaptation set
 TRACKS = {
     "bbb": {1: "video", 2: "audio", 3: "audio", 4: "text"},
     "tears": {1: "video", 2: "audio"},
-    "syn1": {1: "video", 2: "audio"},
-    "syn2": {1: "video", 2: "audio"},
 }
+for _s in ("syn1", "syn2", "syn3", "syn4", "syn5", "syn6", "syn7", "syn8", "syn9"):
+    TRACKS[_s] = {1: "video", 2: "audio"}
 _counter = itertools.count(1)
 UTC = datetime.timezone.utc
 
